@@ -48,6 +48,10 @@ CLAIMED["C12"] = dict(engine="E1", technique="symbolic execution of the real cha
     text="For all inputs of n symbols, all draws and all p: BSC y_i = x_i xor [u_i < p], Z channel never 0->1 and 1->0 iff its own draw < p, BEC erases iff u_i < p and leaves the rest untouched; outputs stay in the input's alphabet (+ erasure), p = 0 / p = 1 give the deterministic extremes, the input tensor is unchanged. Each output position is a function of its own input and its own draw only.",
     note="The generator is trusted to deliver i.i.d. uniform draws; empirical rates on >= 10^6 draws are outside the claim. Z channel forks per input pattern (n <= 5).",
     ref="DESIGN.md §4 C12")
+CLAIMED["C08"] = dict(engine="E1", technique="symbolic execution of the real constraint modules on symbolic real/complex samples (polynomial normal forms, purified sqrt and division); z3 QF_NRA decides each obligation with a fresh solver and a small tactic portfolio",
+    text="Total / average / per-antenna power: for every item of every stated layout and all sample values |x| <= 100: output power <= target (both the normal and the zero-signal branch), >= 99.9% of the target when the input power is >= 1e-4, output is a positive real multiple of the input (signs and phases preserved); peak amplitude: every sample clipped to [-A, A] and unchanged inside; composite == sequential application term-wise. Idempotence, complex (2,2) layouts and the OFDM factory composite are stretch items. The PAPR bound is outside the claim.",
+    note="Floats of symbolic quantities are treated as reals (explicit margins in every obligation); targets are concrete values from a grid; item sizes 2..3 (4 thorough).",
+    ref="DESIGN.md §4 C08, §6")
 NOT_YET = {}
 
 PENDING_REASON = "check not built yet in this round (planned: see DESIGN.md §8); not claimed until its check exists"
